@@ -364,9 +364,21 @@ def run(ctx):
         jobs.append(("frontends/GenCliCommands", cfg(consts["GenCliCommands"], CC), "commands.ndjson", {}))
     if "e2e" in legs:
         jobs.append(("frontends/GenCliE2E", cfg(consts["GenCliE2E"], ["EE_Tree", "EE_FailureKeeps", "EE_ReadsPure", "EE_Counts"]), "e2e.ndjson", {}))
-    gens = dict(zip([j[0].split("/")[1] for j in jobs], gen_all(ctx, jobs)))
-    with open(tables_file) as f:
-        tables = json.load(f)
+    # development aid (trying many mutants): X_CLI_REUSE_CASES=<dir> keeps the GEN output of the first run there and reads it
+    # back in later runs instead of running TLC again (the Spec has not changed between them)
+    cache = os.environ.get("X_CLI_REUSE_CASES")
+    cfile = os.path.join(cache, "cases_%s_%s.json" % (ctx.tier, "+".join(sorted(legs)))) if cache else None
+    if cfile and os.path.exists(cfile):
+        with open(cfile) as f:
+            gens, tables = json.load(f)
+        ctx.notes.append("GEN output reused from %s (no TLC run)" % cfile)
+    else:
+        gens = dict(zip([j[0].split("/")[1] for j in jobs], gen_all(ctx, jobs)))
+        with open(tables_file) as f:
+            tables = json.load(f)
+        if cfile:
+            with open(cfile, "w") as f:
+                json.dump([gens, tables], f)
     inp = {}
     rcases = gens["GenCliResolve"]
     if "resolve" in legs:
